@@ -486,8 +486,13 @@ static int ec_edit(char *loc, char *cmd, char *arg, char *txt)
 			return ex_command(pls + 1);
 		return 0;
 	}
-	if (path[0] || !bufs[0].path)
+	if (path[0] || !bufs[0].path) {
+		/* the table may be full: the slot to be reused must not be dirty */
+		if (!strchr(cmd, '!') && !xwa &&
+				bufs_modified(bufs_findroom(), "buffer modified"))
+			return 1;
 		bufs_switch(bufs_open(path));
+	}
 	fd = open(ex_path(), O_RDONLY);
 	if (fd >= 0) {
 		int rd = lbuf_rd(xb, fd, 0, lbuf_len(xb));
